@@ -97,3 +97,51 @@ def skipPrefixes : List String := ["/health", "/mimiro-favicon.png", "/favicon.i
 def skipped (path : String) : Bool := skipPrefixes.any (fun p => p.toList.isPrefixOf path.toList)
 
 end Hub.Acl
+
+/-! ## persistence of client registrations and ACLs (security/manager.go)
+
+Memory = two maps; disk = `clients.json` and `acls.json`, each rewritten as a whole from a getter by
+the operations that change the corresponding map. -/
+namespace Hub.Acl
+
+abbrev AclMap := List (String × List Ac)
+
+structure SecMem where
+  clients : List String := []
+  acls : AclMap := []
+  deriving Repr
+
+structure Sec where
+  mem : SecMem := {}
+  diskClients : List String := []
+  diskAcls : AclMap := []
+  deriving Repr
+
+inductive SecOp
+  | register (id : String)
+  | unregister (id : String)                 -- RegisterClient with Deleted = true
+  | setAcl (id : String) (acl : List Ac)
+  | delAcl (id : String)
+  | restart
+  deriving Repr
+
+def eraseKey (k : String) (m : AclMap) : AclMap := m.filter (·.1 != k)
+
+def Sec.step (s : Sec) : SecOp → Sec
+  | .register id =>
+    let c := if s.mem.clients.contains id then s.mem.clients else s.mem.clients ++ [id]
+    { s with mem := { s.mem with clients := c }, diskClients := c }
+  | .unregister id =>
+    let c := s.mem.clients.filter (· != id)
+    let a := eraseKey id s.mem.acls
+    -- DeleteClientAccessControls rewrites acls.json, then RegisterClient rewrites clients.json
+    { mem := { clients := c, acls := a }, diskClients := c, diskAcls := a }
+  | .setAcl id acl =>
+    let a := eraseKey id s.mem.acls ++ [(id, acl)]
+    { s with mem := { s.mem with acls := a }, diskAcls := a }
+  | .delAcl id =>
+    let a := eraseKey id s.mem.acls
+    { s with mem := { s.mem with acls := a }, diskAcls := a }
+  | .restart => { s with mem := { clients := s.diskClients, acls := s.diskAcls } }
+
+end Hub.Acl
